@@ -72,6 +72,26 @@ def gen(rng, tier):
         holes.append(hid)
         for d in dss:
             lines.append("DROP " + d.did)
+    # directed: per-day style indexes whose group-by columns have the same NUMBER of distinct values
+    # but other value sets, other columns with equal names, and an index lacking the column
+    dA = dp.Dataset("dirA", [{b"status": b"ok", b"day": b"mon", b"n": b"1"}, {b"status": b"err", b"day": b"mon", b"n": b"2"}, {b"status": b"ok", b"day": b"tue", b"n": b"1"}], "same-counts")
+    dB = dp.Dataset("dirB", [{b"status": b"fine", b"day": b"wed", b"n": b"1"}, {b"status": b"bad", b"day": b"thu", b"n": b"2"}, {b"status": b"bad", b"day": b"wed", b"n": b"1"}], "same-counts")
+    dC = dp.Dataset("dirC", [{b"status": b"ok", b"n": b"1"}, {b"status": b"late", b"n": b"3"}, {b"n": b"3"}], "same-counts")
+    for d in (dA, dB, dC):
+        lines += d.lines()
+    any_e = ("O", [dp.e_eq(b"n", b"1"), dp.e_eq(b"n", b"2"), dp.e_eq(b"n", b"3")])
+    k = 0
+    for gb in ([b"status"], [b"status", b"day"], [b"day", b"status"], [b"n", b"status"], [b"day"]):
+        for seq in ([dA, dB], [dB, dA, dB], [dA, dC, dA], [dC, dB], [dA, dA, dB, dB]):
+            for w, m in (("mem", "ondemand"), ("big", "preload")):
+                qid = "dir.v%d" % k
+                k += 1
+                lines.append("QVAL %s %d %s %s %s %s GB %d%s" % (qid, len(seq), " ".join(d.did for d in seq), w, m, dp.enc_expr(any_e), len(gb), "".join(" " + core.enc_str(c) for c in gb)))
+                for j, d in enumerate(seq):
+                    lines.append(dp.Query("%s.f%d" % (qid, j), d, w, m, any_e, gb, 0).line())
+                cases.append((qid, seq, w, m, any_e, gb))
+    for d in (dA, dB, dC):
+        lines.append("DROP " + d.did)
     return lines, cases
 
 
